@@ -1416,8 +1416,20 @@ class ColList:
         self.v = v
 
 
+class SeriesConcat:
+    """pd.concat([Series, Series, ...]): the values of all parts (only membership tests -- .isin -- are modelled)"""
+
+    def __init__(self, parts):
+        self.parts = list(parts)
+
+
 def series_isin(interp, s, values):
     """Series.isin(values)"""
+    if isinstance(values, SeriesConcat):
+        _use("Series.isin(pd.concat([a, b])): in a or in b")
+        rs = [series_isin(interp, s, p) for p in values.parts]
+        t = z3.Or(*[r.t for r in rs])
+        return V(t, s.axes, s.series)
     if isinstance(values, ColList):
         values = values.v
     if isinstance(values, V) and values.axes:
@@ -1475,6 +1487,8 @@ def pd_concat(interp):
 
         if any(isinstance(o, levels.PartsFrame) for o in objs) or (all(isinstance(o, Frame) for o in objs) and any(o.axis.root is not objs[0].axis.root for o in objs)):
             return levels.concat(interp, objs)
+        if objs and all(isinstance(o, V) and len(o.axes) == 1 for o in objs):
+            return SeriesConcat(objs)
         if not all(isinstance(o, Frame) for o in objs):
             raise Undecided("pd.concat of non-frames")
         _use("pd.concat(frames, axis=0): rows appended in order; columns absent from a part are null there; index labels kept")
